@@ -161,3 +161,50 @@ func zzListDiff(got, exp []string) string {
 	}
 	return "different entries"
 }
+
+// C20/detector-late: a probe of source A, then N further probes of source B, each arriving
+// less than five seconds after the previous one (so the detector's quiet-period timer never
+// fires in between) and together spanning more than a minute; then three quiet periods.
+// Each source's scan is reported exactly once - however late the first report comes.
+func zzH_C20_late() {
+	rec := &zzRecChan{}
+	c := &Canary{knockChan: make(chan interface{}, 100), events: rec}
+	ctx, cancel := context.WithCancel(context.Background())
+	zzTimers(0)
+	go c.knockDetector(ctx)
+	c.knockChan <- KnockTCPPort{SourceHardwareAddr: zzMacS, DestinationHardwareAddr: zzMacD, SourceIP: zzSrcs[0], DestinationIP: zzDst, DestinationPort: 80}
+	zzQuiesce()
+	n := zzParam("N", 13)
+	for i := 0; i < n; i++ {
+		gap := int64(4500 * time.Millisecond)
+		zzClockAdvance(gap)
+		if !zzSymbolic() {
+			time.Sleep(time.Duration(gap))
+		}
+		c.knockChan <- KnockTCPPort{SourceHardwareAddr: zzMacS, DestinationHardwareAddr: zzMacD, SourceIP: zzSrcs[1], DestinationIP: zzDst, DestinationPort: zzPorts[i%len(zzPorts)]}
+		zzQuiesce()
+	}
+	for tick := 0; tick < 3; tick++ {
+		zzTimers(1)
+		zzQuiesce()
+		if !zzSymbolic() {
+			time.Sleep(5300 * time.Millisecond)
+		}
+	}
+	cnt := [2]int{}
+	for _, ev := range rec.evs {
+		m := event.ToMap(ev)
+		if m["category"] != "portscan" {
+			continue
+		}
+		for s := 0; s < 2; s++ {
+			if m["source-ip"] == zzSrcs[s].String() {
+				cnt[s]++
+			}
+		}
+	}
+	zzAssert(cnt[0] == 1, "a scan is reported exactly once, also when other sources' probes delay its report by more than a minute")
+	zzAssert(cnt[1] == 1, "the other source's burst is reported exactly once")
+	cancel()
+	zzQuiesce()
+}
